@@ -5,6 +5,7 @@ import Driver.Filetree
 import Driver.Storage
 import Driver.Genesis
 import Driver.Msgs
+import Driver.Query
 open Lean (Json)
 
 /-- Line protocol: one JSON step record per line on stdin; one verdict line per record on stdout:
@@ -24,6 +25,7 @@ def checkLine (line : String) : String :=
       | "filetree" => Driver.Filetree.check j
       | "storage" => Driver.Storage.check j
       | "genesis" => Driver.Genesis.check j
+      | "query" => Driver.Query.check j
       | "oracle" => Driver.Msgs.checkOracle j
       | "wasm" => Driver.Msgs.checkWasm j
       | "msgtable" => Driver.Msgs.checkTable j
@@ -34,7 +36,11 @@ def checkLine (line : String) : String :=
     | .error e => s!"BAD {modName} hist={hist} i={idx} {e}"
     | .ok none => s!"ok {modName}"
     | .ok (some d) =>
-      let kind := match j.getObjVal? "op" with | .ok o => Driver.opKind o | .error _ => "?"
+      let kind := match j.getObjVal? "op" with
+        | .ok o => Driver.opKind o
+        | .error _ => match j.getObjVal? "q" with
+          | .ok q => (j.getObjValAs? String "sub").toOption.getD "?" ++ "." ++ Driver.opKind q
+          | .error _ => "?"
       s!"DIFF {modName} hist={hist} i={idx} op={kind} {d}"
 
 partial def loop (h : IO.FS.Stream) (out : IO.FS.Stream) (n ok diff bad : Nat) : IO (Nat × Nat × Nat × Nat) := do
